@@ -109,6 +109,14 @@ impl KBucket {
     }
 }
 
+#[cfg(litep2p_verif)]
+impl KBucket {
+    /// Entries of the bucket (verification seam).
+    pub fn verif_nodes(&self) -> &[KademliaPeer] {
+        &self.nodes
+    }
+}
+
 #[cfg(test)]
 mod tests {
     use super::*;
